@@ -626,15 +626,22 @@ fn doc_size(d: &Doc) -> usize {
 /// structural shrinking: walk the one-step reductions in their canonical order (whole definitions, then selections
 /// outermost first, then directives / aliases / unfoldings); a reduction on which `fails` still holds is taken and
 /// the walk continues at the same index; passes are repeated until one changes nothing
-pub fn shrink(start: &Doc, budget: usize, mut fails: impl FnMut(&Doc) -> bool) -> Doc {
+pub fn shrink(start: &Doc, budget: usize, fails: impl FnMut(&Doc) -> bool) -> Doc {
+    shrink_until(start, budget, None, fails)
+}
+
+/// `shrink` with a wall-clock limit: past `deadline` the walk stops and the document reached so far is returned (it
+/// still fails; its signature may then carry features a complete shrink would have removed)
+pub fn shrink_until(start: &Doc, budget: usize, deadline: Option<std::time::Instant>, mut fails: impl FnMut(&Doc) -> bool) -> Doc {
     let mut cur = start.clone();
     let mut spent = 0;
+    let late = || deadline.map_or(false, |d| std::time::Instant::now() > d);
     loop {
         let mut changed = false;
         let mut idx = 0;
         loop {
             let cands = reductions(&cur);
-            if idx >= cands.len() || spent >= budget {
+            if idx >= cands.len() || spent >= budget || late() {
                 break;
             }
             let c = &cands[idx];
@@ -648,7 +655,7 @@ pub fn shrink(start: &Doc, budget: usize, mut fails: impl FnMut(&Doc) -> bool) -
             }
             idx += 1;
         }
-        if !changed || spent >= budget {
+        if !changed || spent >= budget || late() {
             break;
         }
     }
@@ -670,6 +677,8 @@ pub struct Runner<'a> {
     /// failures already shrunk per (direction, kind, features of the unshrunk document)
     pub per_class: std::collections::BTreeMap<String, usize>,
     pub max_per_class: usize,
+    /// wall-clock limit of ONE shrink (the large documents of the interface-hierarchy stream cost ≈ 0.1 s per step)
+    pub shrink_seconds: u64,
 }
 
 impl<'a> Runner<'a> {
@@ -706,9 +715,10 @@ impl<'a> Runner<'a> {
             let budget = self.shrink_budget;
             let case2 = case.clone();
             let mut last = f.clone();
+            let deadline = Some(std::time::Instant::now() + std::time::Duration::from_secs(self.shrink_seconds));
             let m = {
                 let this: &mut Runner = self;
-                shrink(&p.doc_model, budget, |d| match this.o_fails(&case2, d, &dir) {
+                shrink_until(&p.doc_model, budget, deadline, |d| match this.o_fails(&case2, d, &dir) {
                     Some(x) => {
                         last = x;
                         true
@@ -1327,7 +1337,7 @@ pub fn main_for(property: &str, which: &'static str) {
     };
     {
         let mut r = Runner { rep: &mut rep, drv: &mut drv, which, cap, shrink_budget: 1200, max_shrinks: if args.thorough() || search { 400 } else { 24 }, shrinks_done: 0,
-            per_class: Default::default(), max_per_class: if args.thorough() || search { 4 } else { 1 } };
+            per_class: Default::default(), max_per_class: if args.thorough() || search { 4 } else { 1 }, shrink_seconds: if args.thorough() || search { 120 } else { 20 } };
         if let Some(path) = &args.replay {
             let v: Value = serde_json::from_str(&std::fs::read_to_string(path).expect("replay file")).expect("replay json");
             let case = Case::from_json(&v["case"]);
